@@ -191,6 +191,41 @@ pub fn run(ctx: &Ctx, rep: &mut Report, dir: &std::path::Path) {
                 }
             }
             order(&am, 0, &mut pos, 0);
+            if rng.chance(1, 8) {
+                // the same subninja file loaded a second time: every output in it now has two producers
+                let mut subs: Vec<usize> = Vec::new();
+                for (_, stmts) in &am.files {
+                    for s in stmts {
+                        if let Stmt::Subninja(g) = s {
+                            if am.files[*g].1.iter().any(|x| matches!(x, Stmt::Build { .. })) {
+                                subs.push(*g);
+                            }
+                        }
+                    }
+                }
+                if subs.is_empty() {
+                    return;
+                }
+                let g = *rng.pick(&subs);
+                am.files[0].1.push(Stmt::Subninja(g));
+                let exp = evaluate(&am, true);
+                if !matches!(&exp.reject, Some(m) if m.contains("already an output")) {
+                    return;
+                }
+                let r = render(&am, &mut rng, false);
+                rep.evaluations += 1;
+                rep.count("subninja_twice_inputs", 1);
+                let case = || J::obj().with("case", J::i(idx)).with("manifest", J::Arr(r.files.iter().map(|(n, t)| J::Arr(vec![J::s(n), J::s(t)])).collect()));
+                let (res, _printed) = capture_stdout(&mut tmp, || load_rendered(dir, &r));
+                match res {
+                    Err(p) => rep.violation(&format!("panic:{}", crate::sim::panic_sig(&p)), &p, case()),
+                    Ok(Ok(_)) => rep.violation("duplicate-output-accepted", "a file with build statements is loaded by two subninja statements, but the manifest loaded", case()),
+                    Ok(Err(_)) => {
+                        rep.nontrivial.insert(fnv(r.files[0].1.as_bytes()) ^ 7);
+                    }
+                }
+                return;
+            }
             if pos.len() < 2 {
                 return;
             }
@@ -221,7 +256,27 @@ pub fn run(ctx: &Ctx, rep: &mut Report, dir: &std::path::Path) {
             let dup = if rng.chance(1, 2) && !deep { canon.clone() } else { respell(&canon, &mut rng) };
             // sometimes the second statement spells the path through a variable bound in its own block
             // that shadows a file-level variable of the same name (paths see the block's bindings first)
-            let via_block_var = rng.chance(1, 4);
+            let how = rng.below(8);
+            let via_block_var = how < 2;
+            // ... or through a file-level variable that an included file re-binds just before
+            let via_include_rebind = how == 2;
+            if via_include_rebind {
+                am.files[0].1.insert(0, Stmt::Var("dupv".into(), lit("elsewhere")));
+                for p in pos.iter_mut() {
+                    if p.0 == 0 {
+                        p.1 += 1;
+                    }
+                }
+                let nf = am.files.len();
+                am.files.push(("8rebind.ninja".to_string(), vec![Stmt::Var("dupv".into(), lit(&dup))]));
+                let (f2, s2) = pos[b2];
+                am.files[f2].1.insert(s2, Stmt::Include(nf));
+                for p in pos.iter_mut() {
+                    if p.0 == f2 && p.1 >= s2 {
+                        p.1 += 1;
+                    }
+                }
+            }
             if via_block_var {
                 am.files[0].1.insert(0, Stmt::Var("dupv".into(), lit("elsewhere")));
                 for p in pos.iter_mut() {
@@ -233,6 +288,8 @@ pub fn run(ctx: &Ctx, rep: &mut Report, dir: &std::path::Path) {
             if let Stmt::Build { outs, iouts, binds, .. } = &mut am.files[pos[b2].0].1[pos[b2].1] {
                 let spelled = if via_block_var {
                     binds.push(("dupv".into(), lit(&dup)));
+                    vec![Part::Ref("dupv".into())]
+                } else if via_include_rebind {
                     vec![Part::Ref("dupv".into())]
                 } else {
                     lit(&dup)
